@@ -45,14 +45,19 @@ func init() {
 			if tier == "thorough" {
 				n, nc, np = 3000000, 1500, 20000
 			}
-			return []runner.Phase{
+			ph := []runner.Phase{
 				{Name: "static", Variant: "plain", Cases: n, Run: c11static, Required: []string{"token_aware_with_key", "nonlocal_fallback", "rotation_checks", "rotation_checks_farther_tiers", "down_hosts", "names_differing_in_case_only", "replica_sets_compared", "more_than_12_replicas"}},
 				{Name: "address-exchange", Variant: "plain", Cases: n / 100, Run: c11addressExchange, Required: []string{"address_exchanges"}},
 				{Name: "concurrent", Variant: "race", Cases: nc, Run: c11concurrent, CaseTimeout: 120 * time.Second, Required: []string{"concurrent_picks"}},
 				{Name: "concurrent-build", Variant: "race", Cases: nc * 10, Run: c11build, Required: []string{"concurrent_builds"}},
 				{Name: "cowlist-linearizable", Variant: "race", Cases: np, Run: c11cow, Required: []string{"histories_checked"}},
-				{Name: "long-history", Variant: "plain", Cases: 4, Shards: 4, Run: c11longHistory, CaseTimeout: 60 * time.Minute, Required: []string{"long_history_plans"}},
 			}
+			if tier == "thorough" {
+				// 2^31 plans per policy kind take six minutes of CPU on four cores (and several times that on a busy
+				// machine): thorough tier only
+				ph = append(ph, runner.Phase{Name: "long-history", Variant: "plain", Cases: 4, Shards: 4, Run: c11longHistory, CaseTimeout: 90 * time.Minute, Required: []string{"long_history_plans"}})
+			}
+			return ph
 		},
 	})
 }
@@ -1014,9 +1019,6 @@ func c11longHistory(c *runner.Ctx, i int) {
 		pol.AddHost(h)
 	}
 	total := uint64(1)<<31 + 1<<17
-	if c.Tier == "thorough" {
-		total = uint64(1)<<32 + 1<<17
-	}
 	full := func(n uint64) bool {
 		var seq []*gocql.HostInfo
 		panicked := ""
